@@ -7,6 +7,10 @@ Parts
                 the vector one (full query vector and every single-query vector).
   bisect_gen  : random strictly increasing float arrays (length 1..40, any magnitude) with queries on, 1 ulp
                 beside, between and outside the elements; sub-vectors of queries for the vector form.
+  bisect_int  : whole-number axes (int64 arrays, lists of ints, float64 / float32 / float16 arrays of whole numbers, also
+                around 2**11, 2**24, 2**53, 2**62 where the narrower float types stop resolving integers) searched with
+                INTEGER queries: Python ints, numpy int64 / int32 scalars, 0-d integer arrays, integer vectors. Reference:
+                bisect_left over exact Python ints.
   hermite     : random cubics given in the affine coordinate of the piece, interval of either orientation,
                 array-valued data; end values / end slopes exact, value and gradient equal to the cubic and its
                 derivative inside and up to two lengths outside.
@@ -28,7 +32,8 @@ RULE = ("bisect_exh enumerates all strictly increasing arrays of length 1..L ove
         "with len(array) >= 2; Hermite case with a reversed interval or array-valued data.")
 ASSUMPTIONS = ["numpy back end only (torch not installed)",
                "bisect.bisect_left is the reference for 'first element not smaller than the query'",
-               "reference cubic evaluated in longdouble"]
+               "reference cubic evaluated in longdouble",
+               "integer queries on float axes stay within 2**53 (every operand exactly representable in float64); integer axes are searched with integer queries of any int64 magnitude"]
 
 KINDS = ["list", "float32", "float64", "longdouble", "int64"]
 DT = {"float32": np.float32, "float64": np.float64, "longdouble": np.longdouble, "int64": np.int64, "float16": np.float16}
@@ -108,6 +113,26 @@ def _bisect_gen(draw):
     return dict(part="bisect_gen", arr=vals, kind=kind, queries=queries, qtype=qtype)
 
 
+@st.composite
+def _bisect_int(draw):
+    kind = draw(st.sampled_from(["int64", "intlist", "float64", "float32", "float16"]))
+    bases = {"int64": [0, -7, 2 ** 24 - 6, 2 ** 31 - 4, 2 ** 53 - 5, 2 ** 53 + 1, -(2 ** 53) - 9, 2 ** 62, 1700000000000000000],
+             "intlist": [0, -7, 2 ** 53 - 5, 2 ** 53 + 1, 2 ** 62, 1700000000000000000],
+             "float64": [0, -7, 2 ** 24 - 6, 2 ** 31 - 4, 2 ** 52 - 3, -(2 ** 52)],
+             "float32": [0, -7, 2 ** 24 - 6, 2 ** 24 + 2, -(2 ** 24) - 8, 2 ** 23 - 3],
+             "float16": [0, -7, 2 ** 11 - 6, 2 ** 11 + 2, -(2 ** 11) - 8, 1000]}[kind]
+    v = draw(st.sampled_from(bases))
+    vals = [v]
+    for _ in range(draw(st.integers(0, 11))):
+        v = v + draw(st.sampled_from([1, 1, 2, 3, 4]))
+        vals.append(v)
+    queries = []
+    for _ in range(draw(st.integers(1, 10))):
+        i = draw(st.integers(0, len(vals) - 1))
+        queries.append(vals[i] + draw(st.sampled_from([0, 0, 1, -1, 2, -2, 5, -40])))
+    return dict(part="bisect_int", arr=vals, kind=kind, queries=queries, qtype=draw(st.sampled_from(["pyint", "pyint", "np64", "np32", "arr0d"])))
+
+
 _SHAPES = [[], [1], [3], [2, 2], [2, 1, 3]]
 
 
@@ -138,6 +163,7 @@ def parts(tier):
     return [
         Part("bisect_exh", enumerate=_enum(tier), timeout=60, exhaustive=True),
         Part("bisect_gen", strategy=_bisect_gen(), examples=3000 if q else 60000, timeout=60),
+        Part("bisect_int", strategy=_bisect_int(), examples=3000 if q else 60000, timeout=60),
         Part("hermite", strategy=_hermite(), examples=5000 if q else 200000, timeout=60),
         # coverage-guided campaigns over the same strategies and oracles (pbt/fuzz.py)
         Part("bisect_cov", strategy=_bisect_gen(), fuzz=1600 if q else 160000, timeout=60),
@@ -299,7 +325,70 @@ def _check_hermite(case):
     return viols, dict(nontrivial=bool(case["L"] < 0 or shape), labels=labels)
 
 
+def _check_bisect_int(case):
+    """integer queries on whole-number axes; every comparison can be made exactly (integer against integer, or integer
+    against a float type wide enough to hold both operands: queries stay within 2**53 for float axes)"""
+    from desolver import utilities as deutil
+    kind = case["kind"]
+    if kind == "intlist":
+        arr = [int(v) for v in case["arr"]]
+        ref = list(arr)
+    else:
+        arr = np.asarray(case["arr"], dtype=DT[kind])
+        ref = sorted(set(int(v) for v in arr.tolist()))          # (after rounding to the axis type: float32 beyond 2**24 ...)
+        arr = np.asarray(ref, dtype=DT[kind])
+        if [int(v) for v in arr.tolist()] != ref:
+            return [], dict(nontrivial=False, labels=["bisect_int:degenerate_after_cast"])
+    viols = []
+    n = len(ref)
+    qs = [int(q) for q in case["queries"]]
+    qt = case["qtype"]
+    got_scalar = []
+    between = False
+    for q in qs:
+        want = min(bisect.bisect_left(ref, q), n - 1)
+        between |= (ref[0] < q < ref[-1]) and q not in ref
+        if qt == "np32" and abs(q) < 2 ** 31:
+            qq = np.int32(q)
+        elif qt == "np64" or qt == "np32":
+            qq = np.int64(q)
+        elif qt == "arr0d":
+            qq = np.asarray(q, dtype=np.int64)
+        else:
+            qq = q
+        try:
+            got = int(deutil.search_bisection(arr, qq))
+        except Exception as e:
+            viols.append(V("bisect_scalar_raises", "search_bisection({} {}, {!r} [{}]) raised {!r}".format(kind, ref, q, qt, e), exc_sig(e)))
+            got_scalar.append(None)
+            continue
+        got_scalar.append(got)
+        if got != want:
+            viols.append(V("bisect_scalar", "search_bisection({} {}, {!r} [{}]) = {} but the first element not smaller (clipped) is {}".format(
+                kind, ref, q, type(qq).__name__, got, want), "int:{}".format(kind)))
+            break
+    if not viols:
+        for how in ("int64_array", "list_of_ints"):
+            qv = np.asarray(qs, dtype=np.int64) if how == "int64_array" else list(qs)
+            try:
+                gv = [int(g) for g in np.asarray(deutil.search_bisection_vec(arr, qv)).reshape(-1)]
+            except Exception as e:
+                viols.append(V("bisect_vec_raises", "search_bisection_vec({} {}, {}) raised {!r}".format(kind, ref, qs, e), exc_sig(e)))
+                break
+            want = [min(bisect.bisect_left(ref, q), n - 1) for q in qs]
+            if gv != want or gv != got_scalar:
+                viols.append(V("bisect_vec", "search_bisection_vec({} {}, {} [{}]) = {}, scalar search gives {}, reference {}".format(kind, ref, qs, how, gv, got_scalar, want), "int:{}".format(kind)))
+                break
+    labels = ["bisect_int:" + kind, "bisect_int:query_as_" + qt] + (["bisect_int:query_between_elements"] if between else [])
+    big = max(abs(ref[0]), abs(ref[-1])) >= {"float16": 2 ** 11, "float32": 2 ** 24}.get(kind, 2 ** 53)
+    if big:
+        labels.append("bisect_int:beyond_the_integer_resolution_of_the_next_narrower_type")
+    return viols, dict(nontrivial=bool(n >= 2 and (between or big)), labels=labels)
+
+
 def check(case):
+    if case["part"] == "bisect_int":
+        return _check_bisect_int(case)
     if case["part"].startswith("bisect"):
         return _check_bisect(case)
     return _check_hermite(case)
